@@ -8,9 +8,12 @@ import (
 
 	"pgregory.net/rapid"
 
+	"verif/astx"
 	"verif/harness"
 	"verif/inputs"
 	"verif/oracle"
+	"verif/phpgen"
+	"verif/progs"
 	"verif/px"
 )
 
@@ -153,4 +156,38 @@ func TestReplay(t *testing.T) {
 			return
 		}
 	}
+}
+
+// TestGeneratedPrograms: generated programs under full trivia policies. The
+// expected token sequence (ids, values, which trivia hangs on which token) and
+// all offsets/lines come from the generator's own layout.
+func TestGeneratedPrograms(t *testing.T) {
+	harness.Check(t, "programs", 30000, 1000000, func(rt *rapid.T) {
+		v := rapid.SampledFrom(px.KeyVersions).Draw(rt, "version")
+		c := progs.Draw(rt, v, progs.Options(v), 1, 4)
+		excl := 0
+		lay := c.G.Render(c.Root, progs.Policy(rt, phpgen.PolicyFull, &excl))
+		src := lay.Src
+		for i := 0; i < excl; i++ {
+			harness.Excluded("lone-cr-newline")
+		}
+		r := px.Parse(src, v, true)
+		if r.Panic != "" || r.Root == nil {
+			harness.Fail(rt, "no-tree", src, meta(v), "[%s] generated program gave no tree: panic=%q", v, r.Panic)
+		}
+		if len(r.Errs) > 0 {
+			harness.Fail(rt, "valid-rejected", src, meta(v), "[%s] generated valid program rejected: %s\nsource: %q", v, px.ErrString(r.Errs), src)
+		}
+		harness.Class("src=generated")
+		if cl, m := checkOne(src, v, "generated"); cl != "" {
+			harness.Fail(rt, cl, src, meta(v), "%s\nsource: %q", m, src)
+		}
+		if d := astx.Equal(r.Root, c.Root, astx.WithTokens|astx.WithPositions); d != "" {
+			harness.Fail(rt, "model", src, meta(v), "[%s] tokens of the parsed tree differ from the generator's layout (parsed vs expected): %s\nsource: %q", v, d, src)
+		}
+		c.Report()
+		for k := range lay.Classes {
+			harness.Class("trivia:" + k)
+		}
+	})
 }
